@@ -16,15 +16,15 @@ namespace Iscp.Seg
 /-- header encode/decode round trip (sender.go `send` vs read_buffer.go `Receive`). -/
 theorem C14.header_roundtrip (d : Dg) (hs : d.seq < 4294967296) (hm : d.maxIdx < 65536) (hi : d.idx < 65536) :
     decodeDg d.encode = some d := by
-  sorry
+  exact header_roundtrip_lem d hs hm hi
 
 /-- every header byte produced by the encoder is a byte. -/
 theorem C14.header_bytes (d : Dg) : ∀ b ∈ (d.encode.take 8), b < 256 := by
-  sorry
+  exact header_bytes_lem d
 
 /-- anything shorter than the header is not a datagram (it is discarded by `RB.receive`). -/
 theorem C14.short_is_malformed (bs : Bytes) (h : bs.length < 8) : decodeDg bs = none := by
-  sorry
+  exact short_is_malformed_lem bs h
 
 /-- split: the payloads of the segments concatenate to the message; the count is 1 for `|m| ≤ P` and
     `|m|/P + 1` otherwise (exact multiples get a trailing empty segment), indices are `0..k`,
@@ -34,17 +34,20 @@ theorem C14.split_concat (P seq : Nat) (m : Bytes) (hP : 0 < P) (ds : List Dg)
     (ds.map (·.payload)).flatten = m ∧
     ds.length = (if m.length ≤ P then 1 else m.length / P + 1) ∧
     (∀ i, (hi : i < ds.length) → ds[i].idx = i ∧ ds[i].maxIdx = ds.length - 1 ∧ ds[i].seq = seq) := by
-  sorry
+  have _ := hP
+  exact split_concat_lem P seq m ds h
 
 /-- oversize refused: more than 65536 segments are never sent; everything else is. -/
 theorem C14.oversize_refused (P seq : Nat) (m : Bytes) (hP : 0 < P) :
     segments P seq m = none ↔ (P < m.length ∧ 65535 < m.length / P) := by
-  sorry
+  have _ := hP
+  exact oversize_refused_lem P seq m
 
 /-- every datagram the sender emits has header fields within their wire width, so it survives the header round trip. -/
 theorem C14.sent_headers_fit (P seq : Nat) (m : Bytes) (hP : 0 < P) (ds : List Dg)
     (h : segments P seq m = some ds) : ∀ d ∈ ds, d.maxIdx < 65536 ∧ d.idx < 65536 ∧ d.idx ≤ d.maxIdx := by
-  sorry
+  have _ := hP
+  exact sent_headers_fit_lem P seq m ds h
 
 /-- REASSEMBLY: for any arrival order, any interleaving with other messages, any losses and any arrival
     times, the receiver (started empty) outputs exactly what `spec` says: the original bytes at the moment all
@@ -52,27 +55,28 @@ theorem C14.sent_headers_fit (P seq : Nat) (m : Bytes) (hP : 0 < P) (ds : List D
 theorem C14.reassembly (P : Nat) (hP : 0 < P) (msgOf : Nat → Bytes) (segsOf : Nat → List Dg)
     (tr : List (Nat × Dg)) (expiry : Nat) (g : Genuine P msgOf segsOf (tr.map (·.2))) :
     runDg ⟨[], expiry⟩ tr = spec msgOf segsOf [] (tr.map (·.2)) := by
-  sorry
+  have _ := hP
+  exact reassembly_lem P msgOf segsOf tr expiry g
 
 /-- exactly once: a sequence number whose segments are all in the arrival list yields its message exactly once … -/
 theorem C14.complete_once (msgOf : Nat → Bytes) (segsOf : Nat → List Dg) (tr : List Dg) (s : Nat)
     (hmem : ∀ d ∈ tr, d ∈ segsOf d.seq) (hseq : ∀ d ∈ segsOf s, d.seq = s) (hne : segsOf s ≠ [])
     (hnd : tr.Nodup) (hall : ∀ d ∈ segsOf s, d ∈ tr) :
     ((spec msgOf segsOf [] tr).filter (fun o => match o with | .msg s' _ => s' = s | .none => false)).length = 1 := by
-  sorry
+  exact complete_once_lem msgOf segsOf tr s hmem hseq hne hnd hall
 
 /-- … and one with a missing segment yields nothing at all. -/
 theorem C14.incomplete_nothing (msgOf : Nat → Bytes) (segsOf : Nat → List Dg) (tr : List Dg) (s : Nat)
     (d0 : Dg) (h0 : d0 ∈ segsOf s) (hmiss : d0 ∉ tr) :
     ∀ o ∈ spec msgOf segsOf [] tr, ∀ bs, o ≠ .msg s bs := by
-  sorry
+  exact incomplete_nothing_gen msgOf segsOf s d0 h0 tr [] hmiss List.not_mem_nil
 
 /-- malformed datagrams (index beyond the announced count, no buffer yet; or shorter than the header)
     are discarded: no output and no state change. -/
 theorem C14.malformed_discarded (rb : RB) (now : Nat) :
     (∀ bs, bs.length < 8 → rb.receive now bs = (rb, .none)) ∧
     (∀ d : Dg, d.maxIdx < d.idx → alLookup d.seq rb.bufs = none → rb.receiveDg now d = (rb, .none)) := by
-  sorry
+  exact malformed_discarded_lem rb now
 
 /-- a datagram whose index is beyond the slot count of an existing buffer never produces output
     and never changes the collected segments. -/
@@ -80,24 +84,24 @@ theorem C14.out_of_range_no_output (rb : RB) (now : Nat) (d : Dg) (s : Slot)
     (h : alLookup d.seq rb.bufs = some s) (hi : s.msgs.length ≤ d.idx) :
     (rb.receiveDg now d).2 = .none ∧
     ∃ s', alLookup d.seq (rb.receiveDg now d).1.bufs = some s' ∧ s'.msgs = s.msgs ∧ s'.segCount = s.segCount := by
-  sorry
+  exact out_of_range_no_output_lem rb now d s h hi
 
 /-- expiry: after `removeExpired now` no buffer with `expiredAt < now` is left, every other buffer is
     untouched; a buffer touched at `t` has `expiredAt = t + expiry`. -/
 theorem C14.expiry (rb : RB) (now : Nat) :
     (∀ s sl, alLookup s (rb.removeExpired now).bufs = some sl → ¬ (now > sl.expiredAt)) ∧
     (∀ e ∈ rb.bufs, ¬ (now > e.2.expiredAt) → e ∈ (rb.removeExpired now).bufs) := by
-  sorry
+  exact expiry_lem rb now
 
 theorem C14.touch_sets_deadline (rb : RB) (now : Nat) (d : Dg) (sl : Slot)
     (h : alLookup d.seq (rb.receiveDg now d).1.bufs = some sl) :
     sl.expiredAt = now + rb.expiry := by
-  sorry
+  exact touch_sets_deadline_lem rb now d sl h
 
 /-- sequence numbers: the first is 0 and any 2^32 consecutive ones are pairwise distinct (wrap-around). -/
 theorem C14.seq_fresh : seqAt 0 = 0 ∧
     ∀ i j, i < j → j < i + 4294967296 → seqAt i ≠ seqAt j := by
-  sorry
+  exact seq_fresh_lem
 
 /- non-vacuity: a concrete three-segment message satisfies the hypotheses of `reassembly`
    and is reassembled from a permuted arrival. -/
